@@ -39,7 +39,7 @@ RULE_R = ("programs of contracted functions and classes with invariants whose co
 def gen_run_cases(rng, n):
     cases = []
     for i in range(n):
-        g = gen_run.GenRun(rng, is_async=(i % 2 == 1), faults=0.1, awaits=0.5)
+        g = gen_run.GenRun(rng, is_async=(i % 2 == 1), faults=0.1, awaits=0.5, new_style=0.25)
         c = g.case()
         if gen_run.small_enough(c):
             cases.append(c)
